@@ -326,13 +326,23 @@ class Check:
         def zl(l):
             return "[" + ";".join(("(%d)" % x) if x < 0 else str(x) for x in l) + "]"
         body = ";\n ".join("(%s,%s)" % (zl(c), zl(o)) for c, o in sel)
-        fn = "Sample_%s_%s" % (self.pid, name)
+        fn = "Sample_%s_%s_%d" % (self.pid, name, os.getpid())     # per process: concurrent runs of one check must not collide
         src = ("From AV Require Import Base.Util %s.\nOpen Scope Z_scope.\n"
                "Definition cases : list (list Z * list Z) := [\n %s].\n"
                "Definition bad := filter (fun io => negb (zlist_eqb (run_case (fst io)) (snd io))) cases.\n"
                "Eval vm_compute in (length cases, length bad).\n" % (module, body))
         open(os.path.join(OUT, fn + ".v"), "w").write(src)
+        open(os.path.join(OUT, "Sample_%s_%s.v.txt" % (self.pid, name)), "w").write(src)   # last sample, for the reader
         rc, out = sh("timeout 300 coqc -Q ../.. AV %s.v" % fn, 320, cwd=OUT)
+        for ext in (".v", ".vo", ".vok", ".vos", ".glob"):
+            try:
+                os.remove(os.path.join(OUT, fn + ext))
+            except OSError:
+                pass
+        try:
+            os.remove(os.path.join(OUT, "." + fn + ".aux"))
+        except OSError:
+            pass
         m = re.search(r"=\s*\((\d+)(?:%nat)?,\s*(\d+)(?:%nat)?\)", out)
         if rc or not m:
             raise CheckAbort("in-Coq sample evaluation failed:\n" + out[-2000:])
@@ -367,7 +377,8 @@ class Check:
     def write_replay(self, obj):
         os.makedirs(os.path.join(ROOT, "replays"), exist_ok=True)
         self._nreplay += 1
-        path = os.path.join(ROOT, "replays", "%s-%d-%d.json" % (self.pid, self.seed, self._nreplay))
+        tag = "" if REPO == "/repo" else "-scratch%d" % os.getpid()     # runs against a scratch copy never overwrite real replays
+        path = os.path.join(ROOT, "replays", "%s-%d-%d%s.json" % (self.pid, self.seed, self._nreplay, tag))
         obj = dict(obj)
         obj.setdefault("property", self.pid)
         obj.setdefault("seed", self.seed)
@@ -409,11 +420,16 @@ class Check:
         ev = {"property_id": self.pid, "tier": self.tier, "seed": self.seed, "level": self.level,
               "coverage": self.cov, "assumptions": self.assumptions,
               "wall_s": round(time.time() - self.t0, 2), "violations": max(len(self.violations), getattr(self, "nviol", 0))}
-        os.makedirs(os.path.join(ROOT, "evidence"), exist_ok=True)
-        tmp = os.path.join(ROOT, "evidence", self.pid + ".json.tmp")
+        # evidence/<id>.json describes runs against /repo only; a run against a scratch copy (VERIF_REPO, used for
+        # seeded changes and calibration) writes to evidence/scratch/ (not committed)
+        evdir = os.path.join(ROOT, "evidence") if REPO == "/repo" else os.path.join(ROOT, "evidence", "scratch")
+        os.makedirs(evdir, exist_ok=True)
+        if REPO != "/repo":
+            ev["repo_under_test"] = REPO
+        tmp = os.path.join(evdir, "%s.json.tmp%d" % (self.pid, os.getpid()))
         with open(tmp, "w") as f:
             json.dump(ev, f, indent=1, default=repr)
-        os.replace(tmp, os.path.join(ROOT, "evidence", self.pid + ".json"))
+        os.replace(tmp, os.path.join(evdir, self.pid + ".json"))
         for path, no_input in self.violations:
             print("VIOLATION property=%s replay=%s%s" % (self.pid, path, " no-failing-input-found" if no_input else ""))
         sys.stdout.flush()
